@@ -277,7 +277,7 @@ impl Oracle for SenderLimitOracle {
                         let peer_limit = match &cx.plan.endpoints[peer].kind {
                             EndpointKind::Hc { spec, .. } => Some(spec.rx_alloc_limit),
                             EndpointKind::Client { cfg, .. } | EndpointKind::Server { cfg, .. } => Some(cfg.max_receive_alloc.min(u32::MAX as u64)),
-                            EndpointKind::Raw => None,
+                            EndpointKind::Raw | EndpointKind::Rate { .. } => None,
                         };
                         if let Some(pl) = peer_limit {
                             if pl != *tx_alloc_limit as u64 {
@@ -611,7 +611,7 @@ impl Oracle for RateOracle {
                             }
                         }
                     }
-                    Probe::None => (),
+                    Probe::Rate(_) | Probe::None => (),
                 }
                 for (peer, h) in hs {
                     let rtt_ns = h.rtt_s.map_or(0, |s| (s * 1e9) as u64);
